@@ -290,7 +290,7 @@ def scratch_dir():
     return _scratch['dir']
 
 
-def build_classes(spec, H, as_file=False):
+def build_classes(spec, H, as_file=False, header=None):
     """exec the generated source in a fresh module; returns {index: class}.
     as_file=True writes a real module file (in a scratch directory removed at exit) so that `inspect` finds sources."""
     _mod_counter[0] += 1
@@ -300,14 +300,15 @@ def build_classes(spec, H, as_file=False):
         import importlib.util
         path = os.path.join(scratch_dir(), name + '.py')
         with open(path, 'w') as f:
-            f.write('H = None\n' + src)
+            f.write((header or 'H = None\n') + src)
         sp = importlib.util.spec_from_file_location(name, path)
         mod = importlib.util.module_from_spec(sp)
         sys.modules[name] = mod
         mod.H = H
         code = compile(open(path).read(), path, 'exec')
         exec(code, mod.__dict__)
-        mod.H = H
+        if header is None:
+            mod.H = H
     else:
         mod = types.ModuleType(name)
         mod.H = H
